@@ -105,7 +105,96 @@ class Annot(ast.NodeTransformer):
         return n
 
 
-KINDS = {"flip": Flip, "invert": Invert, "kwargs": Kwargs, "aug": Aug, "noise": Noise, "annot": Annot}
+def _simple_operand(e) -> bool:
+    """evaluating it has no effect and cannot be affected by a call evaluated next to it"""
+    return isinstance(e, (ast.Name, ast.Constant)) or (isinstance(e, ast.Attribute) and _simple_operand(e.value))
+
+
+class InlineTemp(ast.NodeTransformer):
+    """`t = <expr>` directly followed by the only use of t, as a whole operand of `return t` / `y = t` / `f(.., t, ..)` whose other operands are
+    plain names -> the expression is written at the use and the temporary disappears (the "inline variable" refactoring)"""
+    def _block(self, body, fn_counts):
+        out = []
+        i = 0
+        while i < len(body):
+            st = body[i]
+            nxt = body[i + 1] if i + 1 < len(body) else None
+            done = False
+            if isinstance(st, ast.Assign) and len(st.targets) == 1 and isinstance(st.targets[0], ast.Name) and nxt is not None \
+                    and isinstance(st.value, (ast.Call, ast.Attribute, ast.Subscript, ast.BinOp)) and not any(isinstance(x, (ast.Yield, ast.YieldFrom, ast.Await, ast.NamedExpr, ast.Lambda)) for x in ast.walk(st.value)):
+                name = st.targets[0].id
+                if fn_counts.get(name) == 2:   # one store, one load in the whole function
+                    slot = None
+                    if isinstance(nxt, ast.Return) and isinstance(nxt.value, ast.Name) and nxt.value.id == name:
+                        slot = ("value", None)
+                    elif isinstance(nxt, ast.Assign) and isinstance(nxt.value, ast.Name) and nxt.value.id == name and all(isinstance(t, ast.Name) for t in nxt.targets):
+                        slot = ("value", None)
+                    elif isinstance(nxt, (ast.Expr, ast.Assign, ast.Return)) and isinstance(nxt.value, ast.Call) and _simple_operand(nxt.value.func) \
+                            and all(_simple_operand(a) for a in nxt.value.args) and all(k.arg is not None and _simple_operand(k.value) for k in nxt.value.keywords):
+                        for j, a in enumerate(nxt.value.args):
+                            if isinstance(a, ast.Name) and a.id == name:
+                                slot = ("arg", j)
+                        if isinstance(nxt, ast.Assign) and not all(isinstance(t, ast.Name) for t in nxt.targets):
+                            slot = None
+                    if slot is not None:
+                        if slot[0] == "value":
+                            nxt.value = st.value
+                        else:
+                            nxt.value.args[slot[1]] = st.value
+                        out.append(nxt)
+                        i += 2
+                        done = True
+            if not done:
+                out.append(st)
+                i += 1
+        return out
+
+    def visit_FunctionDef(self, fn):
+        self.generic_visit(fn)
+        counts = {}
+        for n in ast.walk(fn):
+            if isinstance(n, ast.Name):
+                counts[n.id] = counts.get(n.id, 0) + 1
+        for holder in ast.walk(fn):
+            for f in ("body", "orelse", "finalbody"):
+                lst = getattr(holder, f, None)
+                if isinstance(lst, list) and lst and isinstance(lst[0], ast.stmt):
+                    setattr(holder, f, self._block(lst, counts))
+        return fn
+
+
+class ExtractTemp(ast.NodeTransformer):
+    """`y = f(g(a), b)` / `return f(g(a), b)` / `f(g(a), b)` with a nested call as FIRST argument and nothing but plain names before it ->
+    `_tmp_k = g(a)` in front and the name in its place (the "extract variable" refactoring)"""
+    def __init__(self):
+        self.k = 0
+
+    def _block(self, body):
+        out = []
+        for st in body:
+            if isinstance(st, (ast.Expr, ast.Assign, ast.Return)) and isinstance(getattr(st, "value", None), ast.Call):
+                c = st.value
+                if _simple_operand(c.func) and c.args and isinstance(c.args[0], ast.Call) and not isinstance(c.args[0].func, ast.Lambda) \
+                        and not any(isinstance(x, (ast.Yield, ast.YieldFrom, ast.Await, ast.NamedExpr, ast.Starred, ast.GeneratorExp)) for x in ast.walk(c.args[0])) \
+                        and (not isinstance(st, ast.Assign) or all(isinstance(t, ast.Name) for t in st.targets)):
+                    self.k += 1
+                    nm = f"_tmp_{self.k}"
+                    out.append(ast.copy_location(ast.Assign(targets=[ast.Name(id=nm, ctx=ast.Store())], value=c.args[0]), st))
+                    c.args[0] = ast.copy_location(ast.Name(id=nm, ctx=ast.Load()), c.args[0])
+            out.append(st)
+        return out
+
+    def visit_FunctionDef(self, fn):
+        self.generic_visit(fn)
+        for holder in ast.walk(fn):
+            for f in ("body", "orelse", "finalbody"):
+                lst = getattr(holder, f, None)
+                if isinstance(lst, list) and lst and isinstance(lst[0], ast.stmt):
+                    setattr(holder, f, self._block(lst))
+        return fn
+
+
+KINDS = {"flip": Flip, "invert": Invert, "kwargs": Kwargs, "aug": Aug, "noise": Noise, "annot": Annot, "inlinetemp": InlineTemp, "extracttemp": ExtractTemp}
 
 
 def reshaped(src: str, kind: str) -> str:
